@@ -72,11 +72,13 @@ func lexChains(stmt string, pg bool) (cs []chain, lits []string, malformed strin
 				bad("quoted identifier glued to the word before it at byte " + itoa(i))
 			}
 			var parts []string
+			unterm := false
 			for {
 				name, j := readIdent(i)
 				if j > len(stmt) {
 					bad("unterminated identifier quote opened at byte " + itoa(i))
 					j = len(stmt)
+					unterm = true
 				}
 				parts = append(parts, name)
 				i = j
@@ -89,7 +91,7 @@ func lexChains(stmt string, pg bool) (cs []chain, lits []string, malformed strin
 			if i < len(stmt) && isWordByte(stmt[i]) {
 				bad("quoted identifier glued to the word after it at byte " + itoa(i))
 			}
-			cs = append(cs, chain{parts: parts, prev: words})
+			cs = append(cs, chain{parts: parts, prev: words, end: i, unterm: unterm})
 			push("<id>")
 		case strings.IndexByte(strq, c) >= 0:
 			j := i + 1
